@@ -295,7 +295,7 @@ var intChanges = []string{
 // order otherwise) or a drawn d is excluded resp. negligible; m -> -m is semantic iff m != 0.
 func TestIntcomOpen(t *testing.T) {
 	const test = "IntcomOpen"
-	vlib.Check(t, 500, func(t *rapid.T) {
+	vlib.Check(t, 800, func(t *rapid.T) {
 		k := drawIntKey(t, "key", true)
 		useTrap := rapid.Bool().Draw(t, "commitWithTrapdoor")
 		c, m, w, mcls, wcls := intCommit(t, k, "c", useTrap)
@@ -470,7 +470,7 @@ func intHomEnv(k *intKey, sampler commitments.WitnessSampler[*intcom.Witness]) *
 // the other view.
 func TestIntcomHomomorphism(t *testing.T) {
 	const test = "IntcomHomomorphism"
-	vlib.Check(t, 260, func(t *rapid.T) {
+	vlib.Check(t, 400, func(t *rapid.T) {
 		k := drawIntKey(t, "key", true)
 		view := "public"
 		var shape, sc []string
@@ -540,13 +540,16 @@ func TestIntcomEquivocation(t *testing.T) {
 		}
 		// measured, not asserted: is w' inside the honest sampling range [-N·2^80, N·2^80)?
 		bound := new(big.Int).Lsh(k.n, base.StatisticalSecurityBits)
-		inRange := w2.Value().Big().CmpAbs(bound) < 0
+		inRange := "n/a(m'=m)"
+		if !same {
+			inRange = fmt.Sprint(w2.Value().Big().CmpAbs(bound) < 0)
+		}
 		rel := "m'!=m"
 		if same {
 			rel = "m'=m"
 		}
 		vlib.Sample("intcom-equiv", map[string]any{"key": k.id, "m": showIntM(m), "w": showIntW(w), "m2": short(m2b), "w2": showIntW(w2)})
-		cl := append(k.class(), "msg="+mcls, "wit="+wcls, "newmsg="+m2cls, rel, fmt.Sprintf("w'InSamplingRange=%v", inRange))
+		cl := append(k.class(), "msg="+mcls, "wit="+wcls, "newmsg="+m2cls, rel, "w'InSamplingRange="+inRange)
 		vlib.Case(test, vlib.Desc("intcom", 2*k.bits, k.kind, "equivocate", mcls, wcls, m2cls, rel), true, cl...)
 	})
 }
